@@ -283,6 +283,8 @@ func (n *WorkflowNode) SetStaticValue(path FieldPath, value any) *WorkflowNode {
 }
 
 func (n *WorkflowNode) addDependencyRelation(fromNodeKey string, inputs []*FieldMapping, options *workflowAddInputOpts) *WorkflowNode {
+	// the mappings become part of the graph: keep them apart from the slice the caller still holds
+	inputs = append([]*FieldMapping(nil), inputs...)
 	for _, input := range inputs {
 		input.fromNodeKey = fromNodeKey
 	}
